@@ -36,7 +36,12 @@ func main() {
 	list := flag.Bool("list", false, "print every obligation")
 	noControls := flag.Bool("nocontrols", false, "skip the self-test overlays")
 	e1dump := flag.String("e1dump", "", "debug: print E1 summaries of functions whose name contains this string")
+	writeBaseline := flag.Bool("write-baseline", false, "print the function list of the repository (checker/baseline_funcs.txt)")
 	flag.Parse()
+	if *writeBaseline {
+		WriteBaseline(*repo)
+		return
+	}
 	if *e1dump != "" {
 		c := Load(*repo, "", nil)
 		e := NewE1(c)
@@ -128,6 +133,14 @@ func runOne(pc *propCheck, ctxp **Ctx, repo, verif, tier string, seed int, only 
 		*ctxp = Load(repo, "", nil)
 	}
 	c := *ctxp
+	if c.Norm != nil {
+		for _, s := range c.Norm.Inlined {
+			r.Note("normalisation: new helper inlined into its callers before the analysis: %s; positions refer to the tree after inlining", s)
+		}
+		for _, s := range c.Norm.Kept {
+			r.Note("normalisation: new function analysed as it stands: %s", s)
+		}
+	}
 	pc.run(c, r)
 	if !noControls {
 		runControls(c, r, pc, tier)
